@@ -184,8 +184,15 @@ def _r1(ctx, pkg):
     ctx.saw(R, "Reaction.preprocessing")
     bfl = Flow(base, R)
     rets = [f for f in bfl.facts if f.kind == "return"]
-    ident = bool(rets) and all(simp(f.value) in (("param", "line"), ("meth", ("param", "line"), "strip", (), ())) and not f.guards for f in rets)
-    ctx.check(ident, "R1", "Reaction.preprocessing:identity", (R, base.lineno),
+    LINE_ = ("param", base.args.args[-1].arg) if base.args.args else ("param", "line")
+    same = lambda v: v in (LINE_, ("meth", LINE_, "strip", (), ()), ("meth", LINE_, "rstrip", (), ()), ("call", ("global", "str"), (LINE_,), ()))
+    ident = bool(rets) and all(same(simp(f.value)) for f in rets)         # every path returns the line (whatever the tests on the way)
+    drops = any(simp(f.value)[0] == "const" for f in rets) or not rets
+    if not ident and not drops:
+        ctx.unrec("R1", "Reaction.preprocessing:identity", (R, base.lineno), "cannot see that the base pre-processing returns the line it is given: "
+                  + "; ".join(show(simp(f.value))[:60] for f in rets)[:160])
+    else:
+      ctx.check(ident, "R1", "Reaction.preprocessing:identity", (R, base.lineno),
               "the base pre-processing keeps every line" if ident else
               "the base pre-processing drops lines by content: data lines of formats that inherit it (UCLCHEM/Leeds/native rows beginning with the surface "
               "prefix '#', KIDA rows) vanish from the network",
